@@ -117,6 +117,10 @@ package ledger
 //@   local kvErr error
 //@   local newMeta *xldgpb.LedgerMeta
 //@   local batchWrite kvdb.Batch
+// The confirmation batch is shared between calls: what is written with a block is only
+// what this confirmation queued - the batch was emptied before anything was queued here
+// (a rejected block's leftovers must not ride along with the next one).
+//@   at Batch.Write assert [C04] only_this_confirmation_is_written: sel(batchResetAt, ifacePtr(recv)) == old(kvQueued)
 //@   at Batch.Write assert meta_goes_with_the_blocks: recv == batchWrite && batchWrite == l.confirmBatch && sel(sel(batchOp, ifacePtr(recv)), xldgpb.MetaTablePrefix) == 1
 //@   ensures one_atomic_write: kvWrites <= old(kvWrites) + 1 && kvDirect == old(kvDirect)
 //@   at fieldwrite.meta assert [C05] memory_follows_the_disk: kvErr == nil && $1 == newMeta
